@@ -55,6 +55,9 @@ def check_steps(sc, steps, out=print):
         K, M = steps[0]["K"], steps[0]["M"]
         E = [O.energy(K, M, steps[0]["prev"]["u"], steps[0]["prev"]["v"])] + [O.energy(K, M, r["new"]["u"], r["new"]["v"]) for r in steps]
         start = en.get("from_step", 0)
+        for n, r in enumerate(steps):
+            if "E_impl" in r and abs(r["E_impl"] - E[n + 1]) > 1e-9 * max(1.0, abs(E[n + 1])):
+                bad.append("step %d %s: simu.Calc_Energy gives %.12e but 1/2 v'Mv + 1/2 u'Ku = %.12e" % (n, sc["steps"][n]["algo"], r["E_impl"], E[n + 1]))
         for n in range(start, len(steps)):
             algo = sc["steps"][n]["algo"]
             d = E[n + 1] - E[n]
@@ -69,7 +72,29 @@ def check_steps(sc, steps, out=print):
     return bad
 
 
+def range_case(sc):
+    """does the real setter accept (dt, alpha) exactly when the documented range says so?"""
+    import numpy as np
+    from EasyFEA import Simulations, Models
+    from EasyFEA.Simulations.Solvers import AlgoType
+    mesh = c05_run.build_mesh({"coords": [[0, 0, 0], [1, 0, 0], [1, 1, 0], [0, 1, 0]], "tris": [[0, 1, 2], [0, 2, 3]]})
+    simu = Simulations.Elastic(mesh, Models.Elastic.Isotropic(2))
+    try:
+        if sc["algo"] == "parabolic":
+            simu.Solver_Set_Parabolic_Algorithm(sc["dt"], sc["alpha"])
+        else:
+            simu.Solver_Set_Hyperbolic_Algorithm(sc["dt"], algo=getattr(AlgoType, sc["algo"]), alpha=sc["alpha"])
+        accepted = True
+    except AssertionError:
+        accepted = False
+    print("setter for %s with dt=%s alpha=%s: %s; documented range: %s" % (sc["algo"], sc["dt"], sc["alpha"],
+          "accepted" if accepted else "rejected", "admissible" if sc["expect_accept"] else "not admissible"))
+    return 1 if accepted != sc["expect_accept"] else 0
+
+
 def main(sc):
+    if sc.get("kind") == "range":
+        return range_case(sc)
     steps = c05_run.run_scenario(sc)
     bad = check_steps(sc, steps)
     print("steps run: %d; violated predicates: %d" % (len(steps), len(bad)))
